@@ -52,3 +52,35 @@ func VerifC11_ChannelConfig() {
 		verifapi.Assert(r.front == cfg.FrontDomain, "the rendezvous fronts with exactly the configured front domain")
 	}
 }
+
+// ---- C15: building the client never crashes it, whatever the configuration -------------------
+//
+// NewSnowflakeClient with a broker configuration that is or is not usable; the NAT probe it
+// starts in the background fails or answers. No goroutine may touch a broker channel that was
+// never built.
+
+func verifRandSeed(seed int64)                    {}
+func verifRandShuffle(n int, swap func(i, j int)) {}
+func verifCheckNAT(addr string) (bool, error) {
+	if verifapi.Bool("nat probe fails") {
+		return false, verifErr11b
+	}
+	return verifapi.Bool("nat restricted"), nil
+}
+
+func VerifC15_NewClient() {
+	pick := func(name string, vals [2]string) string { return vals[verifapi.Concrete(verifapi.Choice(name, 2))] }
+	cfg := ClientConfig{
+		BrokerURL:    pick("broker", [2]string{"broker.example", "bad"}),
+		ICEAddresses: []string{"stun:stun.example:3478"},
+		Max:          1,
+	}
+	t, err := NewSnowflakeClient(cfg)
+	verifapi.Quiesce() // the background NAT probe has run
+	verifapi.Cover("client constructed or refused")
+	if cfg.BrokerURL == "bad" {
+		verifapi.Assert(err != nil && t == nil, "an unusable broker configuration is reported as an error")
+	} else {
+		verifapi.Assert(err == nil && t != nil, "a usable configuration yields a transport")
+	}
+}
